@@ -52,15 +52,30 @@ pub fn unhx(s: &str) -> f64 {
 
 pub struct Out {
     w: std::io::BufWriter<std::io::Stdout>,
+    pub last_input: String,
 }
+
+/// The message and source location of the most recent panic (the hook in main stores it; nothing is printed)
+pub static LAST_PANIC: std::sync::Mutex<String> = std::sync::Mutex::new(String::new());
+
 impl Out {
     pub fn new() -> Self {
-        Out { w: std::io::BufWriter::new(std::io::stdout()) }
+        Out { w: std::io::BufWriter::new(std::io::stdout()), last_input: String::new() }
     }
     /// One correspondence case: the model input and the implementation's canonical output
     pub fn case(&mut self, input: &str, output: &str) {
         debug_assert!(!input.contains('\t') && !input.contains('\n'));
         writeln!(self.w, "{}\t{}", input, output).unwrap();
+        self.last_input.clear();
+        self.last_input.push_str(&input[..input.len().min(2000)]);
+    }
+    /// The code under test panicked where no stream expects it to (outside every guarded call): the stream ends here.
+    /// Reported whatever the property, with the panic's message and location and the last case that completed.
+    pub fn uncaught_panic(&mut self, stream: &str) {
+        let msg = LAST_PANIC.lock().map(|m| m.clone()).unwrap_or_default();
+        let last = self.last_input.clone();
+        writeln!(self.w, "#PANIC\t{} stream: the implementation panicked on an input no check expects a panic on: {}\t{}", stream,
+                 msg.replace('\n', " ").replace('\t', " "), format!("panic: {}\\nlast completed case of the stream (the failing one is the next the generator makes at this seed): {}", msg.replace('\n', " "), last.replace('\t', " "))).unwrap();
     }
     /// The implementation's output failed the property's direct oracle
     pub fn oracle_fail(&mut self, what: &str, replay: &str) {
